@@ -65,6 +65,10 @@ def sequences(cfg):
             if mask[0]:
                 continue
             three.append((seq, mask))
+    # an alias() far below the verb that needs the subquery (directly on the source): it must
+    # not be accepted as the boundary when a slice_head / summarize / window lies in between
+    for seq in (("M", "L", "F"), ("L", "F"), ("M", "L", "U"), ("L", "W"), ("W", "L", "F"), ("L", "S"), ("S", "F", "U"), ("W", "F"), ("A", "M", "F"), ("U", "F", "S"), ("L", "A"), ("M", "W", "S")):
+        seqs.append((seq, tuple([True] + [False] * (len(seq) - 1))))
     if cfg.tier == "quick":
         seqs += rotated(three, 48, cfg.seed)
     else:
